@@ -110,6 +110,21 @@ def judgeRename (pre post : List (RPath × Entry)) (src dst : RPath) (res : Res)
     ++ (if others || invented then ["rename/unrelated-entries-changed"] else [])
   else []
 
+/-- A rename src → dst during which another client created the file `late` (below src; `created` = that create was
+    carried out). Whatever order the two requests are given, nothing may be lost: the late file is stored afterwards, under its own path or — moved along —
+    under its image; and every file the source subtree held is stored under its old path or under its image (a rename
+    that fails half-way may leave some moved and some not). -/
+def judgeRenameLate : LateJudge := fun pre src dst late created obs =>
+  if !obs.complete then [] else
+  let post := obs.post.ents
+  let txt := s!"renamelate {tokOfPath src} {tokOfPath dst} late={tokOfPath late}"
+  let stored := fun (p : RPath) => (lookup p post).isSome
+  let lateLost := created && !stored late && !(under src late && stored (reroot src dst late))
+  let movedLost := (pre.ents.filter fun x => under src x.1 && !x.2.isDir).any fun x =>
+    !stored x.1 && !stored (reroot src dst x.1)
+  (if lateLost then [("rename/entry-created-meanwhile-lost", txt)] else [])
+  ++ (if movedLost then [("rename/concurrent-create-loses-moved-entry", txt)] else [])
+
 def judge : Judge := fun pre op obs =>
   let txt := opText op
   if !obs.complete then
